@@ -5,7 +5,8 @@ from ..check import Result, e1_site_findings, e1_health, VERIF
 from ..lin import lin_from_key, Lin, entails_ge0, show_lin
 
 LEVEL = "proof"
-EXPLANATION = ("(range) the inferred type invariant of each bounded newtype - the disjunction over every construction "
+EXPLANATION = ("(ctor-pre) the debug assertion inside every (unchecked) constructor of a bounded type is discharged in every "
+               "calling context of the crate; (range) the inferred type invariant of each bounded newtype - the disjunction over every construction "
                "context in the crate, including every call of the unsafe *_unchecked constructors - is exactly "
                "0 <= value <= 2^bits-1; (const) the MAX_* constants equal 2^bits-1; (bitor) every integer `|` of the "
                "crate has operands whose may-be-set bits are disjoint (no field can alter a neighbouring bit).")
@@ -22,6 +23,12 @@ def check(ctx):
         e1_health(ctx, res, e1)
         tag = "" if cfg == "std" else "@" + cfg
         e1_site_findings(ctx, res, "e1-bitor" + tag, e1, lambda fn, kind, desc, s: kind == "bitor")
+        # the debug assertions inside the (unchecked) constructors are the range preconditions: every calling context
+        # in the crate must discharge them (the invariant above is inferred *after* the assertion, so a violating
+        # caller would otherwise hide behind it)
+        tys = tuple(t + "::" for t in spec["types"])
+        e1_site_findings(ctx, res, "e1-ctor-pre" + tag, e1,
+                         lambda fn, kind, desc, s: kind == "panic" and fn.startswith(tys))
         for ty, sp in spec["types"].items():
             mx = (1 << sp["bits"]) - 1
             rule = "range" + tag
